@@ -576,16 +576,8 @@ type c28Sig struct {
 }
 
 var c28Known = []c28Sig{
-	{"C28-shift-negative", regexp.MustCompile(`slice bounds out of range \[-`), []string{"interp.(*Runner).builtin"}, nil},
-	{"C28-getopts-stale-runeidx", regexp.MustCompile(`index out of range`), []string{"interp.(*getopts).next"}, nil},
-	{"C28-arith-lvalue-index", regexp.MustCompile(`variable name must not be empty`), []string{"interp.(*Runner).lookupVar", "expand.Arithm"}, nil},
-	{"C28-empty-nameref-target", regexp.MustCompile(`variable name must not be empty`), []string{"interp.(*Runner).lookupVar", "expand.Variable.Resolve"}, nil},
-	// every other route of an empty name into lookupVar (unset '', [[ -v "" ]], `+=[ 1 ]`, …): one panic
-	// site, one root fix (lookupVar returns the unset variable); see known-findings.jsonl
-	{"C28-empty-variable-name", regexp.MustCompile(`variable name must not be empty`), []string{"interp.(*Runner).lookupVar"}, nil},
 	{"C28-assoc-index-not-word", regexp.MustCompile(`interface conversion: syntax\.ArithmExpr is (nil|\*syntax\.\w+), not \*syntax\.Word`), nil,
 		[]string{"expand.(*Config).varInd", "expand.(*Config).assignElem", "interp.(*Runner).assignVal"}},
-	{"C28-preinc-postinc", regexp.MustCompile(`interface conversion: syntax\.ArithmExpr is \*syntax\.UnaryArithm, not \*syntax\.Word`), []string{"expand.Arithm"}, nil},
 	{"C28-test-nonword-operand", regexp.MustCompile(`interface conversion: syntax\.TestExpr is \*syntax\.\w+, not \*syntax\.Word`), []string{"interp.(*Runner).bashTest"}, nil},
 	{"C28-nul-byte-quote", regexp.MustCompile(`cannot quote character at byte \d+: shell strings cannot contain null bytes`), nil, nil},
 	{"C28-extglob-unterminated", regexp.MustCompile(`regexp: Compile\(.*\\x00`), nil, nil},
